@@ -708,6 +708,92 @@ func (r *EngineRunner) Exec(f []string) (res string) {
 			s = "err " + EngErr(err)
 		}
 		return s + " order " + strings.Join(ids, ",") + r.takeEvents(false)
+	case "mergew":
+		// E mergew <pro>|<w1>|<w2>...: like mergei, but the other client's calls run when Merge is about to
+		// write its 1st, 2nd ... rewritten record into the merge directory - after that record was found live
+		// and before its hint entry is written.  The result names the slots as they fell for the model.
+		parts := strings.Split(f[2], "|")
+		specOf := func(i int) string {
+			if i < len(parts) && parts[i] != "" {
+				return parts[i]
+			}
+			return "-"
+		}
+		runOps := func(spec string) {
+			if spec == "-" || spec == "" {
+				return
+			}
+			for _, o := range strings.Split(spec, ";") {
+				x := strings.Split(o, ",")
+				k, _ := ParseTok(x[1])
+				if x[0] == "p" {
+					v, _ := ParseTok(x[2])
+					err := r.db.Put(k, v)
+					r.ref.put(r, k, v, err)
+				} else {
+					err := r.db.Delete(k)
+					r.ref.del(r, k, err)
+				}
+			}
+		}
+		r.mergeSeen = nil
+		r.installMergeHook()
+		scanned, writes := 0, 0
+		slots := map[int][]string{} // model slot (1-based: before the i-th lookup) -> calls
+		savedFs, savedEv := kv.VerifFsEvent, fio.VerifEvent
+		kv.VerifFsEvent = func(kind string, a string, b string) {
+			if savedFs != nil {
+				savedFs(kind, a, b)
+			}
+			if kind == "mkdir" && a == r.mergeDir() {
+				runOps(specOf(0))
+			}
+		}
+		inRace := false
+		fio.VerifEvent = func(kind string, path string, data []byte, n int64) {
+			if savedEv != nil {
+				savedEv(kind, path, data, n)
+			}
+			if kind == "write" && !inRace && filepath.Dir(path) == r.mergeDir() && strings.HasSuffix(path, string(datafile.DataFileSuffix)) {
+				writes++
+				if sp := specOf(writes); sp != "-" {
+					inRace = true
+					runOps(sp)
+					inRace = false
+					slots[scanned+1] = append(slots[scanned+1], sp)
+				}
+			}
+		}
+		kv.VerifSched = func(label string) {
+			if label == "merge.scan" {
+				scanned++
+			}
+		}
+		err := r.db.Merge()
+		kv.VerifSched = nil
+		kv.VerifFsEvent, fio.VerifEvent = savedFs, savedEv
+		var ids []string
+		for _, id := range r.mergeSeen {
+			ids = append(ids, fmt.Sprintf("%d", id))
+		}
+		r.ref.merge(r, err)
+		eff := []string{specOf(0)}
+		for i := 1; i <= scanned; i++ {
+			if len(slots[i]) == 0 {
+				eff = append(eff, "-")
+			} else {
+				eff = append(eff, strings.Join(slots[i], ";"))
+			}
+		}
+		post := "-"
+		if len(slots[scanned+1]) > 0 {
+			post = strings.Join(slots[scanned+1], ";")
+		}
+		s := "ok"
+		if err != nil {
+			s = "err " + EngErr(err)
+		}
+		return s + " order " + strings.Join(ids, ",") + " eff " + strings.Join(eff, "|") + " post " + post + r.takeEvents(false)
 	case "backup":
 		dst := filepath.Join(r.Root, f[2])
 		r.dirs[f[2]] = dst
@@ -729,7 +815,7 @@ func (r *EngineRunner) Exec(f []string) (res string) {
 		return r.listing()
 	case "hintcheck":
 		return r.hintCheck()
-	case "open2", "openchild", "openbad", "openrace":
+	case "open2", "openchild", "openbad", "openrace", "openbg":
 		return r.execLock(f)
 	case "concsched", "concpark", "concstress", "concmix":
 		return r.execConc(f)
